@@ -1,31 +1,30 @@
 ------------------------------ MODULE Summary ------------------------------
-(* Property C17: data summaries (src/cmb_datasummary.c, src/cmb_wtdsummary.c) *)
+(* Property C17: data summaries (src/cmb_datasummary.c, src/cmb_wtdsummary.c), *)
+(* model-checking instance.                                                   *)
 (*                                                                            *)
-(* PART 1 (property level, shared with SummaryTrace.tla).  The abstract state  *)
-(* of a summary is the exact power-sum tuple of the samples it has been given: *)
-(*    n = number of samples of non-zero weight, W = sum of weights,            *)
-(*    s_p = sum of w * x^p (p = 1..4), min, max.                               *)
-(* Adding a sample adds its powers; merging adds the tuples component-wise,    *)
-(* so "merge = summary of the concatenated data, in either order, into either  *)
-(* operand, with empty operands" is the abstract semantics by construction.    *)
-(* The exact statistics are rational functions of the tuple (X... operators);  *)
-(* TLC checks that they coincide with the definitional statistics (sums of     *)
-(* powers of deviations from the mean) of the ghost data, for every history.   *)
+(* Property level (SummaryStats.tla, shared with SummaryTrace.tla): the        *)
+(* abstract state of a summary is the exact power-sum tuple of its samples;    *)
+(* adding adds powers, merging adds tuples; the exact statistics are rational  *)
+(* functions of the tuple (X... operators).  TLC checks here that they         *)
+(* coincide with the definitional statistics (sums of powers of deviations     *)
+(* from the mean) of the ghost data, for every history (TupleIsData,           *)
+(* ClosedFormsAreDefinitions).                                                 *)
 (*                                                                            *)
-(* PART 2 (design level).  The running state of the library (count, wsum, m1   *)
-(* .. m4, min, max) and its update formulas - Meng's single-sample update,     *)
-(* Pebay's pairwise merge, the weighted variants - are transcribed over exact  *)
+(* Design level (this module): the running state of the library (count, wsum,  *)
+(* m1 .. m4, min, max) and its update formulas - Meng's single-sample update,  *)
+(* Pebay's pairwise merge, the weighted variants - transcribed over exact      *)
 (* rationals, with the behaviour the property demands where the code departs   *)
-(* from it (merging into an empty result gives an empty summary; the weighted  *)
-(* variance, skewness and kurtosis are normalised by the weight sum).  TLC     *)
-(* checks that this state refines the tuple after every history, that the      *)
-(* accessors give the exact statistics, and the laws of the weighted summary.  *)
+(* from it (merging nothing gives an empty summary; the weighted variance,     *)
+(* skewness and kurtosis are normalised by the weight sum).  TLC checks that   *)
+(* this state refines the tuple after every history (Refines), that the        *)
+(* accessors give the exact statistics (AccessorsExact) and the laws of the    *)
+(* weighted summary: exact weighted mean, zero weights ignored, unit weights   *)
+(* = plain summary, invariance under a common weight factor (WeightedLaws).    *)
 (*                                                                            *)
-(* Samples are small integers, weights small naturals; arithmetic is exact     *)
-(* (C17Big).  Conventions pinned here, as documented in the library headers:   *)
-(* variance = M2/(n-1); skewness = sqrt(n(n-1))/(n-2) * sqrt(n) M3 / M2^1.5;   *)
-(* excess kurtosis = (n-1)/((n-2)(n-3)) * ((n+1)(n M4/M2^2 - 3) + 6).          *)
-(* Skewness is handled as (sign, square) since it is not rational.             *)
+(* Histories: Add / Merge(target, a, b) with a # b and the target either       *)
+(* source or a third object / Reset, over NObj objects, all sample values of   *)
+(* Xs and weights of Wts, at most MaxTotal stored samples.  With Export every  *)
+(* explored transition prints its history for the replay harness.              *)
 EXTENDS Integers, Sequences, FiniteSets, TLC, SummaryStats
 
 CONSTANTS Weighted,   \* TRUE: cmb_wtdsummary objects, FALSE: cmb_datasummary objects
